@@ -27,7 +27,8 @@ import (
 // "process" that sees its imports only as export data plus fact files.
 type unit struct {
 	idx      int
-	testVar  bool
+	testVar  bool // the package recompiled with its in-package _test.go files
+	xtest    bool // the external test package (package <name>_test)
 	vetxOnly bool
 }
 
@@ -36,6 +37,9 @@ type unit struct {
 type VetState struct {
 	Export map[string][]byte // import path -> export data
 	Vetx   map[string][]byte // import path -> encoded facts
+	// the same for the test variant "p [p.test]": only p's external test package reads these
+	ExportTest map[string][]byte
+	VetxTest   map[string][]byte
 }
 
 // RunVet executes `go vet -vettool=gogreement <roots>` in simulation.
@@ -45,7 +49,8 @@ func RunVet(w *world.World, ex *Exec, ch sched.Chooser) (*Outcome, *ExecStats, e
 	st := &ExecStats{}
 	out := NewOutcome()
 	disk := Disk(w)
-	state := &VetState{Export: map[string][]byte{}, Vetx: map[string][]byte{}}
+	faults := WorldFaults(w)
+	state := &VetState{Export: map[string][]byte{}, Vetx: map[string][]byte{}, ExportTest: map[string][]byte{}, VetxTest: map[string][]byte{}}
 
 	// the run set: roots plus all their transitive dependencies (VetxOnly)
 	isRoot := map[int]bool{}
@@ -90,6 +95,9 @@ func RunVet(w *world.World, ex *Exec, ch sched.Chooser) (*Outcome, *ExecStats, e
 		if isRoot[i] && w.Pkgs[i].HasTestFiles() {
 			units = append(units, unit{idx: i, testVar: true})
 		}
+		if isRoot[i] && w.Pkgs[i].HasExtTest() {
+			units = append(units, unit{idx: i, xtest: true})
+		}
 	}
 	for k, u := range units {
 		reps := 1
@@ -97,7 +105,7 @@ func RunVet(w *world.World, ex *Exec, ch sched.Chooser) (*Outcome, *ExecStats, e
 			reps = 2 // a build-cache miss: the unit is executed again before its importers run
 		}
 		for r := 0; r < reps; r++ {
-			if err := runUnit(w, u, disk, state, ex, ch, st, out); err != nil {
+			if err := runUnit(w, u, disk, faults, state, ex, ch, st, out); err != nil {
 				return nil, nil, err
 			}
 		}
@@ -106,7 +114,7 @@ func RunVet(w *world.World, ex *Exec, ch sched.Chooser) (*Outcome, *ExecStats, e
 	return out, st, nil
 }
 
-func runUnit(w *world.World, u unit, disk map[string][]byte, state *VetState, ex *Exec, ch sched.Chooser, st *ExecStats, out *Outcome) error {
+func runUnit(w *world.World, u unit, disk map[string][]byte, faults map[string]string, state *VetState, ex *Exec, ch sched.Chooser, st *ExecStats, out *Outcome) error {
 	// a fresh process
 	if err := ApplyConfig(w.Cfg); err != nil {
 		return err
@@ -116,8 +124,13 @@ func runUnit(w *world.World, u unit, disk map[string][]byte, state *VetState, ex
 	fset := token.NewFileSet()
 	var files []*ast.File
 	names := map[string]bool{}
+	pkgPath := p.Path
+	if u.xtest {
+		pkgPath += "_test"
+	}
 	for _, f := range p.Files {
-		if strings.HasSuffix(f.Name, "_test.go") && !u.testVar {
+		isExt := f.Name == world.ExtTestFile
+		if u.xtest != isExt || (strings.HasSuffix(f.Name, "_test.go") && !u.testVar && !u.xtest) {
 			continue
 		}
 		name := FileName(w, p, f)
@@ -132,6 +145,11 @@ func runUnit(w *world.World, u unit, disk map[string][]byte, state *VetState, ex
 	tc := &types.Config{
 		Importer: importerFunc(func(path string) (*types.Package, error) {
 			data, ok := state.Export[path]
+			if u.xtest && path == p.Path {
+				if dt, okt := state.ExportTest[path]; okt {
+					data, ok = dt, true // the go command hands the test variant to the external test package
+				}
+			}
 			if !ok {
 				return nil, fmt.Errorf("no package file for %q", path)
 			}
@@ -140,16 +158,20 @@ func runUnit(w *world.World, u unit, disk map[string][]byte, state *VetState, ex
 		Sizes: types.SizesFor("gc", "amd64"),
 	}
 	info := newInfo()
-	pkg, err := tc.Check(p.Path, fset, files, info)
+	pkg, err := tc.Check(pkgPath, fset, files, info)
 	if err != nil {
-		return fmt.Errorf("vet-sim: type-check of %s against export data: %v", p.Path, err)
+		return fmt.Errorf("vet-sim: type-check of %s against export data: %v", pkgPath, err)
 	}
-	if !u.testVar {
+	if !u.xtest {
 		var buf bytes.Buffer
 		if err := gcexportdata.Write(&buf, fset, pkg); err != nil {
 			return fmt.Errorf("vet-sim: export data: %v", err)
 		}
-		state.Export[p.Path] = buf.Bytes()
+		if u.testVar {
+			state.ExportTest[p.Path] = buf.Bytes()
+		} else {
+			state.Export[p.Path] = buf.Bytes()
+		}
 	}
 
 	analyzers := analyzer.AllAnalyzers()
@@ -191,11 +213,16 @@ func runUnit(w *world.World, u unit, disk map[string][]byte, state *VetState, ex
 		}
 	}
 	facts, err := xfacts.NewDecoder(pkg).Decode(func(path string) ([]byte, error) {
+		if u.xtest && path == p.Path {
+			if dt, ok := state.VetxTest[path]; ok {
+				return dt, nil
+			}
+		}
 		return state.Vetx[path], nil
 	})
 	if err != nil {
 		// the real unitchecker fails the unit
-		out.Errors[p.Path] = append(out.Errors[p.Path], "unit failed: "+err.Error())
+		out.Errors[pkgPath] = append(out.Errors[pkgPath], "unit failed: "+err.Error())
 		return nil
 	}
 	// which actions run: the roots and their prerequisites
@@ -219,7 +246,7 @@ func runUnit(w *world.World, u unit, disk map[string][]byte, state *VetState, ex
 			continue
 		}
 		act := act
-		act.task = s.Add(act.a.Name+"@"+p.Path, func() {
+		act.task = s.Add(act.a.Name+"@"+pkgPath, func() {
 			inputs := map[*analysis.Analyzer]any{}
 			var failed []string
 			for _, req := range act.a.Requires {
@@ -284,7 +311,11 @@ func runUnit(w *world.World, u unit, disk map[string][]byte, state *VetState, ex
 				if !ok {
 					return nil, fmt.Errorf("open %s: no such file or directory", name)
 				}
-				return append([]byte(nil), b...), nil
+				b = append([]byte(nil), b...)
+				if f, ok := faults[name]; ok {
+					return ApplyReadFault(f, name, b)
+				}
+				return b, nil
 			}
 			act.result, act.err = act.a.Run(pass)
 			simrt.Yield(siteActionEnd)
@@ -317,12 +348,16 @@ func runUnit(w *world.World, u unit, disk map[string][]byte, state *VetState, ex
 	func() {
 		defer func() {
 			if r := recover(); r != nil {
-				out.Errors[p.Path] = append(out.Errors[p.Path], fmt.Sprintf("fact encoding failed: %v", r))
+				out.Errors[pkgPath] = append(out.Errors[pkgPath], fmt.Sprintf("fact encoding failed: %v", r))
 			}
 		}()
 		data := facts.Encode()
 		st.FactsEncoded++
-		if !u.testVar {
+		switch {
+		case u.xtest:
+		case u.testVar:
+			state.VetxTest[p.Path] = data
+		default:
 			state.Vetx[p.Path] = data
 		}
 	}()
@@ -331,7 +366,7 @@ func runUnit(w *world.World, u unit, disk map[string][]byte, state *VetState, ex
 			continue
 		}
 		if act.task.Panic != nil {
-			out.Errors[p.Path] = append(out.Errors[p.Path], fmt.Sprintf("%s: panic: %v", act.a.Name, act.task.Panic))
+			out.Errors[pkgPath] = append(out.Errors[pkgPath], fmt.Sprintf("%s: panic: %v", act.a.Name, act.task.Panic))
 			continue
 		}
 		if u.vetxOnly {
@@ -346,15 +381,15 @@ func runUnit(w *world.World, u unit, disk map[string][]byte, state *VetState, ex
 		if !isRootAnalyzer {
 			continue
 		}
-		if _, ok := out.Diags[p.Path]; !ok {
-			out.Diags[p.Path] = nil
+		if _, ok := out.Diags[pkgPath]; !ok {
+			out.Diags[pkgPath] = nil
 		}
 		if act.err != nil {
-			out.Errors[p.Path] = append(out.Errors[p.Path], fmt.Sprintf("%s: %v", act.a.Name, act.err))
+			out.Errors[pkgPath] = append(out.Errors[pkgPath], fmt.Sprintf("%s: %v", act.a.Name, act.err))
 		}
 		for _, d := range act.diags {
 			pos := fset.Position(d.Pos)
-			out.Diags[p.Path] = append(out.Diags[p.Path], Diag{act.a.Name, strings.TrimPrefix(pos.Filename, simRoot), pos.Line, pos.Column, d.Message})
+			out.Diags[pkgPath] = append(out.Diags[pkgPath], Diag{act.a.Name, strings.TrimPrefix(pos.Filename, simRoot), pos.Line, pos.Column, d.Message})
 		}
 	}
 	return nil
